@@ -158,6 +158,9 @@ fn mode_strategy(n: usize) -> BoxedStrategy<Mode> {
 
 impl Sub for Honest {
     type Case = SignCase;
+    fn restrictable(&self) -> bool {
+        true
+    }
     fn name(&self) -> &'static str {
         "honest_sign_verify"
     }
